@@ -28,9 +28,13 @@ fn safe_join(root: &Path, rel: &str) -> Option<PathBuf> {
     Some(root.join(p))
 }
 
+/// Staging name for a Put. It carries the server's pid: every client has its own
+/// `serve` process on the same root, and two of them staging the same destination
+/// under one shared name would truncate and fill the same file, one renaming it
+/// live while the other is still writing into it.
 fn tmp_of(dst: &Path) -> PathBuf {
     let mut s = dst.as_os_str().to_owned();
-    s.push(".copia-tmp");
+    s.push(format!(".{}.copia-tmp", std::process::id()));
     PathBuf::from(s)
 }
 
